@@ -2,9 +2,9 @@ import Pamqp.Props.TieA.Defs
 namespace Pamqp.Props
 open Pamqp
 
-/-- every protocol constant has the protocol's value, and frame.py reads exactly the expected ones -/
+/-- frame.py reads exactly the expected protocol constants (a new constant in a framing decision is a
+change of the framing logic) -/
 theorem tieA_frame_constants :
-    (Spec.constants.all (fun c => Generated.constants.contains c)) = true ∧
     sameSet Generated.frameConstUses expectedFrameConstUses = true := by decide
 
 end Pamqp.Props
